@@ -50,11 +50,24 @@ def dtname(dtype):
 
 
 class Builder:
+    """Structurally equal sub-expressions are built once and shared.  The canonical string of an expression is computed
+    once per list OBJECT (cache keyed by id(expr), the expression kept alive by the cache), so building the same big
+    expression again -- or re-entering `build` for every node of it -- does not re-serialise the payloads."""
     def __init__(self):
         self.memo = {}
+        self._keys = {}      # id(expr) -> (expr, canonical string)
+
+    def _key(self, e):
+        ent = self._keys.get(id(e))
+        if ent is not None and ent[0] is e:
+            return ent[1]
+        k = json.dumps(e)
+        self._keys[id(e)] = (e, k)
+        return k
 
     def build(self, e):
-        key = json.dumps(e)
+        by_id = self._keys.get(id(e))
+        key = by_id[1] if by_id is not None and by_id[0] is e else self._key(e)
         if key in self.memo:
             return self.memo[key]
         op = self._build(e)
